@@ -64,7 +64,8 @@ func (e *eventV2) SenderID() spec.SenderID {
 }
 
 func (e *eventV2) EventID() string {
-	// if we already generated the eventID, don't do it again
+	// The event ID is computed when the event is constructed (see populateEventID), so
+	// that this accessor is a pure read: events are shared between goroutines.
 	if e.EventIDRaw != "" {
 		return e.EventIDRaw
 	}
@@ -72,8 +73,20 @@ func (e *eventV2) EventID() string {
 	if err != nil {
 		panic(fmt.Errorf("failed to generate reference of event: %w", err))
 	}
-	e.EventIDRaw = ref.EventID
 	return ref.EventID
+}
+
+// populateEventID computes the event ID once, at construction time.
+func (e *eventV2) populateEventID(verImpl IRoomVersion) error {
+	if e.EventIDRaw != "" {
+		return nil
+	}
+	ref, err := referenceOfEventForVersion(e.eventJSON, verImpl)
+	if err != nil {
+		return fmt.Errorf("failed to generate reference of event: %w", err)
+	}
+	e.EventIDRaw = ref.EventID
+	return nil
 }
 
 func (e *eventV2) Redact() {
@@ -101,6 +114,10 @@ func (e *eventV2) Redact() {
 	res.redacted = true
 	res.eventJSON = eventJSON
 	res.roomVersion = e.roomVersion
+	if res.EventIDRaw == "" {
+		// the event ID is that of the redacted form, so it does not change
+		res.EventIDRaw = e.EventIDRaw
+	}
 	*e = res
 }
 
@@ -178,6 +195,10 @@ func newEventFromUntrustedJSONV2(eventJSON []byte, roomVersion IRoomVersion) (PD
 			err = CheckFields(result)
 			return result, err
 		}
+	}
+
+	if err = res.populateEventID(roomVersion); err != nil {
+		return nil, err
 	}
 
 	err = CheckFields(res)
@@ -277,6 +298,9 @@ func newEventFromTrustedJSONV2(eventJSON []byte, redacted bool, roomVersion IRoo
 	res.roomVersion = roomVersion.Version()
 	res.redacted = redacted
 	res.eventJSON = eventJSON
+	if err := res.populateEventID(roomVersion); err != nil {
+		return nil, err
+	}
 	return &res, nil
 }
 
